@@ -203,53 +203,70 @@ def check(ctx):
 
     # ------------------------------------------------------------------ R4
     ctx.rule("R4", "budget reserve for the final samples and design-size cap", floor=3)
+    import itertools
+
+    import sympy as sp
+
+    from ..symb import Translator, Untranslatable
+
     nfs = key_stores(prog, "OPT", "noise_final_samples")
     mx = key_stores(prog, "OPT", "max_fun_evals")
-    res_ok = False
-    for fn, t, v, s, k in nfs:
-        if call_name(v) in ("min", "np.minimum") and len(v.args) == 2:
-            forms = [cmp_normal(ast.Compare(left=a, ops=[ast.Eq()], comparators=[ast.Constant(value=0)])) for a in v.args]
-            cs = {canon(a) for a in v.args}
-            has_self = "OPT[noise_final_samples]" in cs
-            rem = [a for a in v.args if canon(a) != "OPT[noise_final_samples]"]
-            rem_ok = False
-            if rem:
-                from ..terms import linear
-
-                lt, lc_ = linear(rem[0])
-                rem_ok = lt == {"OPT[max_fun_evals]": Fraction(1), "LOG.func_count": Fraction(-1)} and lc_ == 0
-            if has_self and rem_ok:
-                res_ok = True
-                cfgf = cfg_of(fn)
-                red = [x for x in mx if x[0] is fn]
-                good = False
-                for fn2, t2, v2, s2, k2 in red:
-                    from ..terms import linear
-
-                    lt, lc2 = linear(v2)
-                    if lt == {"OPT[max_fun_evals]": Fraction(1), "OPT[noise_final_samples]": Fraction(-1)} and lc2 == 0 and cfgf.dominates(cfgf.node_of(s).id, cfgf.node_of(s2).id):
-                        good = True
-                        ctx.ok(fn, s2, "max_fun_evals := max_fun_evals - noise_final_samples after nfs := min(nfs, max - count)")
-                if not good:
-                    ctx.fail(fn, s, "the evaluation budget of the main loop is not reduced by the reserved final samples after they were clipped to the remaining budget", construct="<missing max_fun_evals -= noise_final_samples>")
-                g = [canon(c, neg=not p) for c, p in guard_of(prog, fn, s)]
-                ctx.check(any("OS[uncertainty_handling_level]" in x for x in g), fn, s, "reserve only in noisy mode", "the reserve is not tied to the noisy mode", construct="reserve guard")
-                # runs before the main loop
-                oc = [c for c, tg in prog.calls_in(opt) if any(isinstance(x, FunctionInfo) and (x is fn or fn in prog.reachable_from(x)) for x in tg)]
-                cfgo = cfg_of(opt)
-                loops = [n for n in cfgo.nodes if n.kind == "test" and isinstance(n.stmt, ast.While)]
-                if oc and loops:
-                    ctx.check(cfgo.dominates(cfgo.node_of(oc[0]).id, loops[0].id), opt, oc[0], "reserve computed before the main loop", "the reserve is not computed before the main loop starts", construct="reserve after loop start")
-        else:
-            ctx.fail(fn, s, "noise_final_samples is overwritten by something other than min(noise_final_samples, max_fun_evals - func_count)", construct=f"OPT[noise_final_samples] <- {canon(v)[:60]}")
-    if not res_ok:
-        ctx.fail(opt, opt.node, "the final re-sampling of noisy targets is not reserved from the budget (noise_final_samples := min(nfs, max_fun_evals - func_count))", construct="<missing final-sample reserve>")
+    host = None
     for fn, t, v, s, k in mx:
-        from ..terms import linear
+        host = fn
+    if host is None:
+        ctx.fail(opt, opt.node, "the final re-sampling of noisy targets is not reserved from the budget: options['max_fun_evals'] is never reduced", construct="<missing final-sample reserve>")
+    else:
+        stmts = sorted([s for fn, t, v, s, k in nfs + mx if fn is host], key=lambda s_: s_.lineno)
+        try:
+            tr = Translator(positive=["OPT[noise_final_samples]", "OPT[max_fun_evals]", "LOG.func_count"])
+            M, N, C = tr.sym("OPT[max_fun_evals]"), tr.sym("OPT[noise_final_samples]"), tr.sym("LOG.func_count")
+            tr.run(stmts)
+            B = tr.env.get("OPT[max_fun_evals]", M)
+            N1 = tr.env.get("OPT[noise_final_samples]", N)
+            Nref = sp.Min(N, M - C)
+            Bref = M - Nref
+            badB = badN = None
+            for m_, n_, c_ in itertools.product(range(1, 13), range(0, 13), range(1, 13)):
+                if c_ > m_:
+                    continue
+                sub = {M: m_, N: n_, C: c_}
+                if badB is None and sp.simplify(B.subs(sub) - Bref.subs(sub)) != 0:
+                    badB = (m_, n_, c_, B.subs(sub), Bref.subs(sub))
+                if badN is None and sp.simplify(N1.subs(sub) - Nref.subs(sub)) != 0:
+                    badN = (m_, n_, c_, N1.subs(sub), Nref.subs(sub))
+            if badB is not None:
+                m_, n_, c_, got, want = badB
+                ctx.fail(host, stmts[-1], f"the main-loop budget after the reserve is {B}, which differs from max_fun_evals - min(noise_final_samples, max_fun_evals - func_count): e.g. max_fun_evals={m_}, noise_final_samples={n_}, func_count={c_} gives {got} instead of {want}", construct=f"reserve arithmetic B={B}")
+            else:
+                ctx.ok(host, stmts[-1], f"main-loop budget = {B} == max - min(nfs, max - count) on a 12x13x12 grid of integer cases")
+            if badN is not None:
+                # unclamped number of final samples: only safe if the final block cannot run when the clamp would bite
+                floop = [n for n in ast.walk(opt.node) if isinstance(n, ast.For) and call_name(n.iter) == "range" and n.iter.args and canon(n.iter.args[0]) == "OPT[noise_final_samples]"]
+                from ..terms import guard_canon as _gc
 
-        lt, lc2 = linear(v)
-        okm = lt == {"OPT[max_fun_evals]": Fraction(1), "OPT[noise_final_samples]": Fraction(-1)} and lc2 == 0
-        ctx.check(okm, fn, s, "max_fun_evals only ever reduced by the reserve", "options['max_fun_evals'] is overwritten: the user's budget no longer bounds the run", construct=f"OPT[max_fun_evals] <- {canon(v)[:60]}")
+                g = _gc(prog, opt, floop[0]) if floop else []
+                if "(0 < poll_iteration)" in g and badB is None:
+                    ctx.note("noise_final_samples is not clamped to the remaining budget; harmless only because the final re-sampling is skipped for runs that end in iteration 0")
+                    ctx.ok(host, stmts[-1], "unclamped final samples cannot run when the budget is smaller than design + samples (final block guarded by poll_iteration > 0)")
+                else:
+                    m_, n_, c_, got, want = badN
+                    ctx.fail(host, stmts[-1], f"the number of final samples is {N1}, not min(noise_final_samples, max_fun_evals - func_count): with max_fun_evals={m_}, noise_final_samples={n_}, func_count={c_} the run makes {c_}+{got} > {m_} target calls", construct=f"final samples not clamped: {N1}")
+            else:
+                ctx.ok(host, stmts[0], "noise_final_samples clamped to the remaining budget")
+        except Untranslatable as e:
+            ctx.undecided(f"reserve arithmetic uses a construct the term translator does not know ({e})")
+        for s_ in stmts:
+            g = [canon(c, neg=not p) for c, p in guard_of(prog, host, s_)]
+            ctx.check(any("OS[uncertainty_handling_level]" in x for x in g), host, s_, "reserve only in noisy mode", "the reserve is not tied to the (possibly auto-detected) noisy mode held in optim_state['uncertainty_handling_level']", construct="reserve guard")
+        oc = [c for c, tg in prog.calls_in(opt) if any(isinstance(x, FunctionInfo) and (x is host or host in prog.reachable_from(x)) for x in tg)]
+        cfgo = cfg_of(opt)
+        loops = [n for n in cfgo.nodes if n.kind == "test" and isinstance(n.stmt, ast.While)]
+        if oc and loops:
+            ctx.check(cfgo.dominates(cfgo.node_of(oc[0]).id, loops[0].id), opt, oc[0], "reserve computed before the main loop", "the reserve is not computed before the main loop starts", construct="reserve after loop start")
+        others = [(fn, s) for fn, t, v, s, k in nfs + mx if fn is not host]
+        for fn, s_ in others:
+            ctx.fail(fn, s_, "the evaluation budget / number of final samples is modified a second time elsewhere", construct=f"second budget store in {fn.short}")
     # design-size cap
     mesh = R.init_mesh
     sob = [(c, tg) for c, tg in prog.calls_in(mesh) if any(isinstance(x, FunctionInfo) and x.name == "init_sobol" for x in tg)]
